@@ -17,6 +17,7 @@ def params_in(fl, op):
 
 def run(db, chk):
     parity_rule(db, chk)
+    cache_invalidation_rule(db, chk)
     impls = [f for f in db.by_crate["gix_pack"] if f.trait_item in ("gix_pack::cache::DecodeEntry::put", "gix_pack::cache::DecodeEntry::get") and f.kind != "promoted"]
     nontrivial = [f for f in impls if len(f.blocks) > 3]
     chk.floor("DecodeEntry impls", len(impls), 8)
@@ -143,3 +144,29 @@ def parity_rule(db, chk):
                c.where(), key="parity|resolve_deltas|%s" % c.name.split("::")[-1])
     if not copies:
         chk.ob("result-location-depends-on-chain-parity", "resolve_deltas (no relocation copy after the loop)", True)
+
+
+def cache_invalidation_rule(db, chk):
+    """pack ids used as cache keys are slot indices of the dynamic store, and slots are reused after packs were deleted: whenever a lookup replaces its
+    snapshot after a refresh, the delta cache it was given must be invalidated (or keyed by something that survives slot reuse).  The rule looks for any
+    operation on the `pack_cache` parameter other than the decode-time get/put on the path that follows a snapshot replacement."""
+    from gx.flow import Flow
+    fs = [f for f in db.by_crate["gix_odb"] if f.name.endswith("::try_find_cached_inner") and "dynamic::find" in f.name]
+    chk.floor("dynamic::find::try_find_cached_inner", len(fs), 1)
+    for f in fs:
+        fl = Flow(f)
+        names = {v: int(k) for k, v in f.names.items() if k.isdigit()}
+        snap, cache = names.get("snapshot"), names.get("pack_cache")
+        if snap is None or cache is None:
+            chk.anchor_lost("try_find_cached_inner: parameters snapshot / pack_cache")
+            continue
+        repl = [(bi, ln) for bi, si, pl, rv, ln, mc in f.assigns() if pl[:2] == [snap, "*"] and len(pl) == 2]
+        chk.floor("snapshot replacements in try_find_cached_inner", len(repl), 1)
+        # calls that receive the cache itself (not something computed with its help); handing it on to the decoder is not an invalidation
+        inval = [c for c in f.calls() if any(any(r[0] == "arg" and r[1] == cache for r in fl.roots(a, stop_named=False, through_calls=False)) for a in c.args if "p" in a)
+                 and not c.is_(r"decode_entry$|try_find\w*$|find_inner$|::(deref|deref_mut|borrow|borrow_mut|as_mut|as_ref)$")]
+        for bi, ln in repl:
+            ok = any(c.block in f.reach_from(bi) for c in inval)
+            chk.ob("slot-reuse-invalidates-delta-cache", "try_find_cached_inner snapshot replaced@%d" % ln, ok,
+                   "after a refresh the snapshot is replaced but the delta cache (keyed by slot index and offset) is left alone: once a deleted pack's slot is reused, a cached delta of the old pack is returned for an object of the new one",
+                   "%s:%d" % (f.file, ln), key="cache-invalidation|try_find_cached_inner")
